@@ -20,8 +20,9 @@ import (
 // function, in terms of that function's parameters. Instead of teaching every rule to look through such helpers, the
 // loader presents the program with them written back where they are used: a call of an unexported function of the
 // repository whose whole body is `return <expr>` with <expr> a side-effect-free boolean expression over its
-// parameters (field selections, indexing, len/cap, comparisons, arithmetic, && || !) and whose arguments are
-// side-effect free as well is replaced by that expression. The replacement is done on the source text through the
+// parameters (field selections, indexing, len/cap, comparisons, arithmetic, && || !; also a one-expression helper of
+// any result type, such as `wrap(op, err)` = fmt.Errorf("%s: %w", op, err)) and whose arguments are side-effect free
+// as well is replaced by that expression. The replacement is done on the source text through the
 // loader's overlay and type-checked again; if the rewritten program does not type-check, the original is analysed.
 // The helper itself stays in the program. Functions that rules anchor on by name are exempt.
 
@@ -29,6 +30,10 @@ var inlineExempt = map[string]bool{"isEmpty": true}
 
 // InlineLog lists the rewrites of the last Load (for the evidence).
 var InlineLog []string
+
+// InlinedSetters names the pure setter functions whose calls were written back as assignments at their call sites in
+// the last Load: what they store is judged there, with the caller's expressions.
+var InlinedSetters = map[string]bool{}
 
 type inlineCand struct {
 	fn     *types.Func
@@ -59,6 +64,15 @@ func pureExpr(e ast.Expr, info *types.Info, cands map[*types.Func]*inlineCand, a
 			if id, isId := ast.Unparen(x.Fun).(*ast.Ident); isId {
 				if b, isB := info.Uses[id].(*types.Builtin); isB && (b.Name() == "len" || b.Name() == "cap") {
 					return true
+				}
+			}
+			// constructors of errors and strings: no effect beyond their result
+			if sel, isSel := ast.Unparen(x.Fun).(*ast.SelectorExpr); isSel {
+				if f, _ := info.Uses[sel.Sel].(*types.Func); f != nil && f.Pkg() != nil {
+					switch f.Pkg().Path() + "." + f.Name() {
+					case "fmt.Errorf", "errors.New", "fmt.Sprintf":
+						return true
+					}
 				}
 			}
 			// a conversion to a basic type
@@ -115,9 +129,8 @@ func inlineRewrite(pkgs []*packages.Package, overlay map[string][]byte) (map[str
 				if sig.Results().Len() != 1 || sig.Variadic() {
 					continue
 				}
-				if bt, isB := sig.Results().At(0).Type().Underlying().(*types.Basic); !isB || bt.Kind() != types.Bool {
-					continue
-				}
+				// (predicates first of all; the same treatment serves any one-expression helper: `wrap(op, err)` =
+				// fmt.Errorf("%s: %w", op, err), a unit conversion, an accessor expression)
 				var params []string
 				named := true
 				if fd.Recv != nil {
@@ -310,6 +323,183 @@ func inlineRewrite(pkgs []*packages.Package, overlay map[string][]byte) (map[str
 			}
 			src = append(append(append([]byte(nil), src[:e.start]...), e.text...), src[e.end:]...)
 			last = e.start
+		}
+		out[name] = src
+	}
+	sort.Strings(log)
+	return out, log
+}
+
+// Setter inlining: `m.setHeight(h, s, g)` where setHeight is nothing but `m.height = h; m.shrinkBelowSize = s;
+// m.growAfterSize = g` is written back as the parallel assignment `m.height, m.shrinkBelowSize, m.growAfterSize = h, s, g`
+// (all right-hand sides evaluated first, exactly as the call evaluates its arguments first), so that rules which read
+// what is stored into those fields see the caller's expressions rather than a parameter.
+func setterRewrite(pkgs []*packages.Package, overlay map[string][]byte) (map[string][]byte, []string) {
+	read := func(name string) []byte {
+		if b, ok := overlay[name]; ok {
+			return b
+		}
+		b, _ := os.ReadFile(name)
+		return b
+	}
+	type setter struct {
+		params []string // receiver first
+		lhsX   []int    // index into params of the assigned object
+		field  []string
+		rhs    []int // index into params of the stored parameter
+		recv   bool
+	}
+	cands := map[*types.Func]*setter{}
+	for _, p := range pkgs {
+		for _, f := range p.Syntax {
+			tf := p.Fset.File(f.Pos())
+			if tf == nil || strings.HasSuffix(tf.Name(), "_test.go") {
+				continue
+			}
+			for _, d := range f.Decls {
+				fd, ok := d.(*ast.FuncDecl)
+				if !ok || fd.Body == nil || len(fd.Body.List) == 0 || fd.Name.IsExported() || fd.Type.TypeParams != nil || (fd.Type.Results != nil && len(fd.Type.Results.List) > 0) {
+					continue
+				}
+				obj, _ := p.TypesInfo.Defs[fd.Name].(*types.Func)
+				if obj == nil || obj.Type().(*types.Signature).Variadic() {
+					continue
+				}
+				st := &setter{recv: fd.Recv != nil}
+				okDecl := true
+				if fd.Recv != nil {
+					if len(fd.Recv.List) != 1 || len(fd.Recv.List[0].Names) != 1 {
+						continue
+					}
+					st.params = append(st.params, fd.Recv.List[0].Names[0].Name)
+				}
+				for _, fl := range fd.Type.Params.List {
+					if len(fl.Names) == 0 {
+						okDecl = false
+					}
+					for _, n := range fl.Names {
+						st.params = append(st.params, n.Name)
+					}
+				}
+				idx := func(name string) int {
+					for i, pn := range st.params {
+						if pn == name && name != "_" {
+							return i
+						}
+					}
+					return -1
+				}
+				for _, s := range fd.Body.List {
+					as, ok := s.(*ast.AssignStmt)
+					if !ok || as.Tok != token.ASSIGN || len(as.Lhs) != 1 || len(as.Rhs) != 1 {
+						okDecl = false
+						break
+					}
+					sel, ok := as.Lhs[0].(*ast.SelectorExpr)
+					if !ok {
+						okDecl = false
+						break
+					}
+					xid, ok1 := sel.X.(*ast.Ident)
+					rid, ok2 := as.Rhs[0].(*ast.Ident)
+					if !ok1 || !ok2 || idx(xid.Name) < 0 || idx(rid.Name) < 0 {
+						okDecl = false
+						break
+					}
+					// the assigned object is reached through a pointer (otherwise the store is into a copy)
+					if tv, has := p.TypesInfo.Types[sel.X]; !has {
+						okDecl = false
+						break
+					} else if _, isPtr := tv.Type.Underlying().(*types.Pointer); !isPtr {
+						okDecl = false
+						break
+					}
+					st.lhsX = append(st.lhsX, idx(xid.Name))
+					st.field = append(st.field, sel.Sel.Name)
+					st.rhs = append(st.rhs, idx(rid.Name))
+				}
+				if okDecl {
+					cands[obj] = st
+				}
+			}
+		}
+	}
+	if len(cands) == 0 {
+		return nil, nil
+	}
+	type edit struct {
+		start, end int
+		text       string
+	}
+	edits := map[string][]edit{}
+	var log []string
+	for _, p := range pkgs {
+		info := p.TypesInfo
+		for _, f := range p.Syntax {
+			tf := p.Fset.File(f.Pos())
+			if tf == nil || strings.HasSuffix(tf.Name(), "_test.go") {
+				continue
+			}
+			src := read(tf.Name())
+			text := func(n ast.Node) string {
+				return strings.ReplaceAll(string(src[tf.Offset(n.Pos()):tf.Offset(n.End())]), "\n", " ")
+			}
+			ast.Inspect(f, func(n ast.Node) bool {
+				es, ok := n.(*ast.ExprStmt)
+				if !ok {
+					return true
+				}
+				ce, ok := es.X.(*ast.CallExpr)
+				if !ok || ce.Ellipsis.IsValid() {
+					return true
+				}
+				callee, _ := typeutil.Callee(info, ce).(*types.Func)
+				st := cands[callee]
+				if st == nil || callee.Pkg() != p.Types {
+					return true
+				}
+				var args []ast.Expr
+				if st.recv {
+					sel, ok := ast.Unparen(ce.Fun).(*ast.SelectorExpr)
+					if !ok {
+						return true
+					}
+					args = append(args, sel.X)
+				}
+				args = append(args, ce.Args...)
+				if len(args) != len(st.params) {
+					return true
+				}
+				for _, a := range args {
+					if !pureExpr(a, info, nil, false) {
+						return true
+					}
+				}
+				// a receiver given as a value (`m.set(..)` with m addressable) is taken by address by the call
+				var lhs, rhs []string
+				for i := range st.field {
+					lhs = append(lhs, "("+text(args[st.lhsX[i]])+")."+st.field[i])
+					rhs = append(rhs, "("+text(args[st.rhs[i]])+")")
+				}
+				edits[tf.Name()] = append(edits[tf.Name()], edit{tf.Offset(es.Pos()), tf.Offset(es.End()), strings.Join(lhs, ", ") + " = " + strings.Join(rhs, ", ")})
+				log = append(log, callee.Name()+" (setter)")
+				InlinedSetters[callee.FullName()] = true
+				return true
+			})
+		}
+	}
+	if len(edits) == 0 {
+		return nil, nil
+	}
+	out := map[string][]byte{}
+	for k, v := range overlay {
+		out[k] = v
+	}
+	for name, es := range edits {
+		src := read(name)
+		sort.Slice(es, func(i, j int) bool { return es[i].start > es[j].start })
+		for _, e := range es {
+			src = append(append(append([]byte(nil), src[:e.start]...), e.text...), src[e.end:]...)
 		}
 		out[name] = src
 	}
